@@ -44,6 +44,9 @@ pub fn observe(text: &str) -> Result<Vec<(&'static str, Result<RVal, String>, Ke
             ("toml::from_str::<Table>", toml::from_str::<toml::Table>(text).map(|t| obs::toml_table_to_r(&t)).map_err(|e| e.to_string()), toml_order),
             ("toml::from_str::<Value>", toml::from_str::<toml::Value>(text).map(|t| obs::toml_value_to_r(&t)).map_err(|e| e.to_string()), toml_order),
             ("toml_edit::de::from_str::<Value>", toml_edit::de::from_str::<toml::Value>(text).map(|t| obs::toml_value_to_r(&t)).map_err(|e| e.to_string()), toml_order),
+            // the same trees read through the accessor methods, lookups and reverse iterators
+            ("DocumentMut by accessors", toml_edit::DocumentMut::from_str(text).map(|d| obs::edit_table_to_r_by_accessors(d.as_table())).map_err(|e| e.to_string()), KeyOrder::ExactOrAlt),
+            ("toml::Table by accessors", text.parse::<toml::Table>().map(|t| obs::toml_table_by_accessors(&t)).map_err(|e| e.to_string()), toml_order),
         ]
     })
 }
